@@ -20,13 +20,15 @@ fn run(ids: &[u64], limit: u64) -> String {
 
 /// independent direct oracle: explicit set of accepted ids (no ring, no bit tricks)
 pub fn oracle(ids: &[u64], limit: u64, window: u64) -> String {
-    let mut acc: Vec<u64> = Vec::new();
+    // the set of accepted ids and its maximum (kept beside the set only so that histories of 20000 ids stay cheap)
+    let mut acc: std::collections::HashSet<u64> = std::collections::HashSet::new();
+    let mut hi: Option<u64> = None;
     let mut out = String::new();
     for &id in ids {
-        let hi = acc.iter().copied().max();
         let ok = id < limit && !acc.contains(&id) && hi.is_none_or(|h| (h as u128) <= id as u128 + window as u128);
         if ok {
-            acc.push(id);
+            acc.insert(id);
+            hi = Some(hi.map_or(id, |h| h.max(id)));
         }
         out.push(if ok { '1' } else { '0' });
     }
@@ -121,5 +123,86 @@ pub fn generate(w: &mut dyn Write, seed: u64, thorough: bool) {
         }
         ids.truncate(len);
         emit(w, &ids, *rng.pick(&limits));
+    }
+    audit(w, seed, thorough);
+}
+
+/// dimensions added by the audit of seeded/audit/aud-sst.md (own Rng stream): small and boundary LIMITS, dense histories longer than
+/// the window (the ring is filled and wraps while densely populated), whole-window sweeps in both directions as in the crate's own
+/// unit test, shuffled windows, long random walks
+fn audit(w: &mut dyn Write, seed: u64, thorough: bool) {
+    let mut rng = Rng::new(seed ^ 0x9A0D_17A0_D17A_0D17);
+    // 1. limits 0, 1, 2, around a block, around the window, 2^63, u64::MAX - 1: ids on both sides of the limit, in and out of order
+    for limit in [0u64, 1, 2, 63, 64, 65, W - 1, W, W + 1, 8192, 8193, 1 << 63, u64::MAX - 1, u64::MAX] {
+        let around: Vec<u64> = [limit.saturating_sub(2), limit.saturating_sub(1), limit, limit.saturating_add(1), limit.saturating_add(2), 0, 1, limit / 2, u64::MAX]
+            .iter()
+            .copied()
+            .collect();
+        emit(w, &around, limit);
+        let mut rev = around.clone();
+        rev.reverse();
+        emit(w, &rev, limit);
+        for _ in 0..(if thorough { 20 } else { 4 }) {
+            let ids: Vec<u64> = (0..rng.range(3, 30)).map(|_| if rng.chance(1, 3) { *rng.pick(&around) } else { limit.saturating_sub(rng.below(W + 300)).saturating_add(rng.below(4)) }).collect();
+            emit(w, &ids, limit);
+        }
+    }
+    // 2. whole-window sweeps (the bulk tests of packet_window.rs, from a fresh filter), at the bottom and at the top of the id space
+    let top = u64::MAX - 3 * W;
+    for base in [0u64, 1 << 33, top] {
+        let up = |a: u64, b: u64| -> Vec<u64> { (a..=b).map(|i| base + i).collect() };
+        let down = |a: u64, b: u64| -> Vec<u64> { (a..=b).rev().map(|i| base + i).collect() };
+        let mut h: Vec<Vec<u64>> = Vec::new();
+        h.push([up(1, W), vec![base, base]].concat());
+        h.push([up(2, W + 1), vec![base + 1, base]].concat());
+        h.push(down(1, W + 1));
+        h.push([down(2, W + 2), vec![base]].concat());
+        h.push([down(1, W), vec![base + W + 1, base]].concat());
+        h.push([down(1, W), vec![base, base + W + 1]].concat());
+        // forward over more than two rings, then every id once more backwards (all duplicates or stale)
+        h.push([up(0, 2 * 8192 + 70), down(2 * 8192 + 70 - W - 3, 2 * 8192 + 70)].concat());
+        // every second id forward, then the gaps backwards (accepted while within the window)
+        h.push([(0..=W + 200).step_by(2).map(|i| base + i).collect::<Vec<u64>>(), (1..=W + 200).rev().step_by(2).map(|i| base + i).collect::<Vec<u64>>()].concat());
+        if !thorough && base != 0 {
+            h.truncate(4);
+        }
+        for ids in h {
+            emit(w, &ids, u64::MAX);
+        }
+    }
+    // 3. a window's worth of ids in random order, followed by a second pass (all duplicates), followed by a jump and stragglers
+    for _ in 0..(if thorough { 30 } else { 4 }) {
+        let base = *rng.pick(&[0u64, 1 << 20, u64::MAX - 40000]);
+        let span = *rng.pick(&[W - 1, W, W + 1, 8192, 9000]);
+        let mut ids: Vec<u64> = (0..span).map(|i| base + i).collect();
+        for i in (1..ids.len()).rev() {
+            let j = rng.below(i as u64 + 1) as usize;
+            ids.swap(i, j);
+        }
+        let again: Vec<u64> = (0..200).map(|_| *rng.pick(&ids)).collect();
+        ids.extend(again);
+        let jump = base + span + *rng.pick(&[1u64, 63, 64, W, 8192, 8193, 20000]);
+        ids.push(jump);
+        for _ in 0..100 {
+            ids.push(jump.saturating_sub(rng.below(W + 200)));
+        }
+        emit(w, &ids, u64::MAX);
+    }
+    // 4. long random walks (thousands of steps): slow drift with reordering, as a real flow produces
+    for _ in 0..(if thorough { 40 } else { 6 }) {
+        let mut base = *rng.pick(&[0u64, 1 << 40, u64::MAX - 200000]);
+        let len = rng.range(2000, if thorough { 20000 } else { 6000 });
+        let mut ids = Vec::with_capacity(len as usize);
+        for _ in 0..len {
+            base = base.saturating_add(rng.below(3));
+            let id = match rng.below(20) {
+                0 => base.saturating_sub(rng.below(W + 50)),
+                1 => base.saturating_add(rng.below(64)),
+                2 | 3 => base.saturating_sub(rng.below(64)),
+                _ => base,
+            };
+            ids.push(id);
+        }
+        emit(w, &ids, *rng.pick(&[u64::MAX, u64::MAX - (1 << 13)]));
     }
 }
